@@ -319,3 +319,70 @@ fn definition_context__as_any_mut_reaches_the_object() {
     kani::cover!(v != w);
     std::mem::forget(ctx);
 }
+
+/// Smallest shape that separates "defaults of the omitted TRAILING optional
+/// parameters" from any other choice: no mandatory parameter, two optional ones
+/// (defaults 7 and 8), ONE argument supplied: the implementation must see
+/// (supplied, 8).
+#[kani::proof]
+#[kani::stub(std::mem::drop, crate::lhs_types::verif_kani::common::mem_drop__releases_nothing_observable)]
+#[kani::unwind(3)]
+fn simple_function_compile__two_optionals_one_supplied() {
+    let mut opt_params = Vec::with_capacity(2);
+    opt_params.push(SimpleFunctionOptParam { arg_kind: SimpleFunctionArgKind::Both, default_value: LhsValue::Int(DEFAULT_1) });
+    opt_params.push(SimpleFunctionOptParam { arg_kind: SimpleFunctionArgKind::Both, default_value: LhsValue::Int(DEFAULT_2) });
+    let def = SimpleFunctionDefinition {
+        params: Vec::new(),
+        opt_params,
+        return_type: Type::Int,
+        implementation: SimpleFunctionImpl::new(report2),
+    };
+    let ptypes = [Type::Int; 1];
+    let f = def.compile(&mut ptypes.iter().map(|t| FunctionParam::Variable(*t)), None);
+    let x: i64 = kani::any();
+    let supplied: [CompiledValueResult<'static>; 1] = [Ok(LhsValue::Int(x))];
+    let mut supplied = supplied.into_iter();
+    let got = f(&mut supplied);
+    std::mem::forget(got);
+    std::mem::forget(supplied);
+    unsafe {
+        assert!(SEEN_LEN == 2 && SEEN_N == 2, "both parameters reach the implementation");
+        assert!(SEEN_KIND[0] == 0 && SEEN_VAL[0] == x, "the supplied argument comes first");
+        assert!(SEEN_KIND[1] == 0 && SEEN_VAL[1] == DEFAULT_2, "the omitted (second) optional parameter gets ITS declared default");
+    }
+    kani::cover!(true);
+    std::mem::forget(f);
+    std::mem::forget(def);
+}
+
+/// Two-argument variant of `report`.
+fn report2<'a>(args: FunctionArgs<'_, 'a>) -> Option<LhsValue<'a>> {
+    unsafe {
+        SEEN_LEN = args.len();
+        let mut k = 0;
+        while k < 2 {
+            let a = args.next();
+            let done = a.is_none();
+            match &a {
+                Some(Ok(LhsValue::Int(i))) => {
+                    SEEN_VAL[k] = *i;
+                    SEEN_KIND[k] = 0;
+                }
+                Some(Err(Type::Int)) => {
+                    SEEN_KIND[k] = 1;
+                }
+                Some(_) => {
+                    SEEN_KIND[k] = 2;
+                }
+                None => {}
+            }
+            std::mem::forget(a);
+            if done {
+                break;
+            }
+            k += 1;
+        }
+        SEEN_N = k;
+    }
+    None
+}
